@@ -97,11 +97,15 @@ TSum ==
   /\ psum' = E.sum8
   /\ LET FS(what, more) == [l |-> l, run |-> E.run, kind |-> E.kind, what |-> what, n |-> E.i, op |-> E.opname,
                             sig |-> E.kind \o "/" \o E.opname \o "/" \o what] @@ more IN
-     /\ Judge("C04", ~E.panic, FS("unexpected_panic", [z |-> 0]))
+     \* VIOT node offsets are 16-bit: an add is refused exactly when the new node would start beyond 65535 (C18)
+     /\ LET refuse == E.kind = "VIOT" /\ E.len_before > 65535 IN
+        /\ Judge("C04", E.panic => refuse, FS("unexpected_panic", [z |-> 0]))
+        /\ Judge("C18", refuse => E.panic, FS("oversize_not_refused", [before |-> E.len_before]))
+        /\ Judge("C18", E.panic => E.len = E.len_before, FS("refusal_changed_table", [before |-> E.len_before, after |-> E.len]))
      /\ Judge("C01", E.sum8 = 0 \/ (psum > 0 /\ psum = E.sum8), FS("checksum_long_history", [sum |-> E.sum8]))
      /\ Judge("C02", Small(Slice(E.head, 4, 4)) /\ Val(Slice(E.head, 4, 4)) = E.len, FS("length_long_history", [emitted |-> E.len]))
-     /\ Judge("C03", E.kind \in DOMAIN CountAt => Slice(E.head, CountAt[E.kind], 4) = LE(E.i, 4), FS("count_long_history", [z |-> 0]))
-     /\ Judge("C03", E.kind = "VIOT" => Slice(E.head, 36, 2) = LE(E.i, 2), FS("count_long_history", [z |-> 0]))
+     /\ Judge("C03", (E.kind \in DOMAIN CountAt /\ ~Has(E, "refusals")) => Slice(E.head, CountAt[E.kind], 4) = LE(E.i, 4), FS("count_long_history", [z |-> 0]))
+     /\ Judge("C03", E.kind = "VIOT" => Slice(E.head, 36, 2) = LE(E.i - Get(E, "refusals", 0), 2), FS("count_long_history", [z |-> 0]))
 
 TNext == l <= NRec /\ l' = l + 1 /\ (TNew \/ TOp \/ TSum)
 TSpec == TInit /\ [][TNext]_tvars
